@@ -115,6 +115,14 @@ class Exec(X.PyExec):
         return Sym(t, dtype)
 
     def subscript(self, base, idx, st):
+        if isinstance(base, Sym) and base.dtype == "bytes" and isinstance(idx, tuple) and idx and idx[0] == "slice":
+            nm = str(base.t)
+            if nm.startswith("rowbytes_row_") and (idx[1] is None or self.concrete(idx[1]) == 0) and idx[2] is not None:
+                # arr[r, c].tobytes()[:n] is the same byte string as bytes(arr[r, c, :n])
+                data, cell = nm[len("rowbytes_row_"):].rsplit("[", 1)
+                lead = [int(x) for x in cell.rstrip("]").split(",")]
+                return [("val", Sym(X.cellkey(data, lead, self.num(idx[2])[0]), "bytes"), st)]
+            raise Unsupported("slice of a bytes value")
         if isinstance(base, Arr) and hasattr(base, "elems") and not isinstance(idx, tuple):
             i = self.concrete(idx)
             if i is not None and 0 <= i < len(base.elems):
